@@ -81,6 +81,12 @@ pub proof fn axiom_stable_sorted(s: Seq<Entry>, r: Seq<Entry>)
 pub fn sort_entries_ts_desc(v: &mut Vec<Entry>)
     ensures stable_sorted_desc(old(v)@, final(v)@)
 { unimplemented!() }
+// slice::sort_unstable_by with the same comparator: sorted and a permutation, but NOT order-preserving among equal timestamps
+pub uninterp spec fn unstable_sorted_desc(s: Seq<Entry>, r: Seq<Entry>) -> bool;
+#[verifier::external_body]
+pub fn sort_entries_ts_desc_unstable(v: &mut Vec<Entry>)
+    ensures unstable_sorted_desc(old(v)@, final(v)@), ts_desc(final(v)@), final(v)@.len() == old(v)@.len(), final(v)@.to_multiset() == old(v)@.to_multiset()
+{ unimplemented!() }
 // Iterator::position(|h| h.is_deleted())
 #[verifier::external_body]
 pub fn position_deleted_entry(v: &Vec<Entry>) -> (r: Option<usize>)
